@@ -35,7 +35,12 @@ def compare(run, pair, what, a, b, scale, tol, unit, config=None, sample=None):
                 sample=sample)
 
 
-def case_backend_pair(name, rep):
+# parameters that carry the stiffness unit (the documented energies are linear in them; all other parameters are dimensionless)
+STIFFNESS = {"neo_hooke": ("mu",), "mooney_rivlin": ("C10", "C01"), "yeoh": ("C10", "C20", "C30"), "third_order_deformation": ("C10", "C01", "C11", "C20", "C30"),
+             "blatz_ko": ("mu",), "van_der_waals": ("mu",), "miehe_goektepe_lulei": ("mu",)}
+
+
+def case_backend_pair(name, rep, nterms=None):
     def fn(run):
         import felupe.constitution.jax as JX
         import felupe.constitution.tensortrax as TT
@@ -43,6 +48,11 @@ def case_backend_pair(name, rep):
         rng = rng_for(run.seed, "C12", "pair", name, rep)
         sampler = matreg._hyper_models("jax")[name][0]
         p = sampler(rng)
+        if nterms is not None:
+            # term lists of another length than the registry's two (the tensortrax copy loops over the terms, the jax copy sums arrays)
+            p = dict(mu=[float(rng.uniform(0.3, 1.5)) * (0.3 if i else 1.0) for i in range(nterms)],
+                     alpha=[float(rng.uniform(1.2, 3)) * (-1) ** i for i in range(nterms)], beta=[float(rng.uniform(0.3, 2)) for i in range(nterms)])
+            run.units["pairs:%s:terms=%d" % (name, nterms)] += 1
         a = TT.Hyperelastic(getattr(TT.models.hyperelastic, name), **p)
         b = JX.Hyperelastic(getattr(JX.models.hyperelastic, name), **p)
         batch = (1, 4 if run.tier == "quick" else 8) if rep % 2 == 0 else (2, 3)  # two non-trivial batch axes as well
@@ -99,6 +109,21 @@ def case_backend_pair(name, rep):
             compare(run, pair, "stress", Pa, Pb, sA, 1e-9, pair + ":stress",
                     sample={"pair": pair, "params": p, "max|P_a - P_b|": maxabs(np.asarray(Pa) - np.asarray(Pb))})
             compare(run, pair, "elasticity", Aa, Ab, sA, 1e-8, pair + ":elasticity")
+            # the same pair in another unit system (stiffness parameters x 1e-9 / 1e+9 resp. 1e-6 / 1e+6): the registry draws O(1)
+            # moduli only, where an absolute threshold inside a model is invisible.  Both copies must still agree, and both must
+            # return exactly the scaled result (the documented energies are linear in these parameters).  The compiled jax
+            # functions take the parameters as arguments: the material object is kept, its parameters are replaced.
+            s_ = 10.0 ** [-9, 9, -6, 6][rep % 4]
+            ps = {k: (v * s_ if k in STIFFNESS[name] else v) for k, v in p.items()}
+            a_s = TT.Hyperelastic(getattr(TT.models.hyperelastic, name), **ps)
+            b.kwargs.update(ps)
+            Pas, Pbs = a_s.gradient([F, None])[0], b.gradient([F, None])[0]
+            Aas, Abs = a_s.hessian([F, None])[0], b.hessian([F, None])[0]
+            compare(run, pair, "stress[scaled units]", Pas, Pbs, sA * s_, 1e-9, pair + ":units")
+            compare(run, pair, "elasticity[scaled units]", Aas, Abs, sA * s_, 1e-8, pair + ":units")
+            for lab, Ps_, P1, As_, A1 in (("tensortrax", Pas, Pa, Aas, Aa), ("jax", Pbs, Pb, Abs, Ab)):
+                compare(run, "%s:%s" % (lab, name), "stress[linear in the stiffness parameters]", Ps_, s_ * np.asarray(P1), sA * s_, 1e-12, pair + ":units")
+                compare(run, "%s:%s" % (lab, name), "elasticity[linear in the stiffness parameters]", As_, s_ * np.asarray(A1), sA * s_, 1e-12, pair + ":units")
     return fn
 
 
@@ -129,6 +154,18 @@ def case_lagrange_pair(name, rep):
             compare(run, pair, "statevars", sva2, svb2, max(maxabs(svb2), 1e-300), 1e-8 + 200 * reg, pair + ":statevars")
             A_a = a.hessian([F, sva])[0]
             compare(run, pair, "elasticity", A_a, A_b, sA, 1e-7 + 50 * reg, pair + ":elasticity")
+            if name == "morph":
+                if k == 0:
+                    # first step from the virgin state: no increment of C has entered the evolution equations yet (L = 0, S_A = 0),
+                    # the stress is 2 alpha dev(C^) C^-1 and the backends differ by the bare 1e-4 shift in C^_T (measured <= 1.3e-6 |A|)
+                    compare(run, pair, "stress[virgin state]", Pa, Pb, sA, 1e-4, pair + ":stress:virgin")
+                # the elasticity clause above is a recorded finding (its key passes at any size, non-finite included): what the record
+                # does not cover stays judged under keys of its own - finite entries, and a size within the recorded order of
+                # magnitude (recorded ~1e-2, largest of 1500 draws 7e-2)
+                fin = bool(np.all(np.isfinite(np.asarray(A_a, float))) and np.all(np.isfinite(np.asarray(A_b, float))))
+                run.compare("material.pairs", "pair=%s clause=elasticity-finite" % pair, 0.0 if fin else np.inf, 0.5,
+                            "%s: non-finite entries in the elasticity tensor of one implementation" % pair, unit=pair + ":elasticity:finite")
+                compare(run, pair, "elasticity[recorded size]", A_a, A_b, sA, 0.5, pair + ":elasticity:recorded-size")
             sva, svb = np.asarray(sva2), np.asarray(svb2)
     return fn
 
@@ -200,17 +237,105 @@ def iso_tensor(lmbda, mu, d=3):
     return lmbda * np.einsum("ij,kl->ijkl", I, I) + mu * (np.einsum("ik,jl->ijkl", I, I) + np.einsum("il,jk->ijkl", I, I))
 
 
-def case_linear(rep):
+# ------------------------------------------------------------------------------------------------ references written with numpy only
+def ortho_stiffness(E, nu, G):
+    """Orthotropic stiffness tensor in the material axes from its definition: normal block = inverse of the compliance matrix of
+    the engineering constants E = (E1, E2, E3), nu = (nu12, nu23, nu31); shear terms G = (G12, G23, G31)."""
+    Sm = np.array([[1 / E[0], -nu[0] / E[0], -nu[2] / E[2]], [-nu[0] / E[0], 1 / E[1], -nu[1] / E[1]], [-nu[2] / E[2], -nu[1] / E[1], 1 / E[2]]])
+    Cm = np.linalg.inv(Sm)
+    A = np.zeros((3, 3, 3, 3))
+    for i in range(3):
+        for j in range(3):
+            A[i, i, j, j] = Cm[i, j]
+    for (i, j), g in zip(((0, 1), (1, 2), (2, 0)), G):
+        A[i, j, i, j] = A[j, i, j, i] = A[i, j, j, i] = A[j, i, i, j] = g
+    return A
+
+
+def rotate4(Q, A):
+    return np.einsum("ia,jb,kc,ld,abcd->ijkl", Q, Q, Q, Q, A)
+
+
+def svk_closed_form(F, C4):
+    """Saint-Venant Kirchhoff law with the Green-Lagrange strain (k = 2) and a constant stiffness C4 (global axes): S = C4 : E,
+    P = F S, dP_iJ / dF_kL = delta_ik S_LJ + F_iI C4_IJLM F_kM."""
+    C = np.einsum("ki...,kj...->ij...", F, F)
+    E = (C - np.eye(3).reshape((3, 3) + (1,) * (F.ndim - 2))) / 2
+    S = np.einsum("ijkl,kl...->ij...", C4, E)
+    A = np.einsum("ik,lj...->ijkl...", np.eye(3), S) + np.einsum("iI...,IJLM,kM...->iJkL...", F, C4, F)
+    return MM.mm(F, S), A
+
+
+def seth_hill_energy(F, C4, k):
+    """W = E_k : C4 : E_k / 2 with the Seth-Hill strain E_k = sum_a f_k(lambda_a) N_a (x) N_a, f_k = (lambda^k - 1) / k resp. ln lambda,
+    from numpy's eigen-decomposition of C (point by point)."""
+    out = np.zeros(F.shape[2:])
+    for idx in np.ndindex(*F.shape[2:]):
+        f = F[(slice(None), slice(None), *idx)]
+        w, N = np.linalg.eigh(f.T @ f)
+        e = np.log(w) / 2 if k == 0 else (w ** (k / 2) - 1) / k
+        E = (N * e) @ N.T
+        out[idx] = np.einsum("ij,ijkl,kl->", E, C4, E) / 2
+    return out
+
+
+def principal_stress(F, dWdl):
+    """First Piola-Kirchhoff stress of an isotropic energy W(lambda_1, lambda_2, lambda_3): P = sum_a dW/dlambda_a n_a (x) N_a, with the
+    principal stretches and directions from numpy's singular value decomposition F = U diag(lambda) V^T (point by point)."""
+    P = np.zeros(F.shape)
+    for idx in np.ndindex(*F.shape[2:]):
+        U, s, Vt = np.linalg.svd(F[(slice(None), slice(None), *idx)])
+        P[(slice(None), slice(None), *idx)] = (U * dWdl(s)) @ Vt
+    return P
+
+
+def ogden_dWdl(mu, alpha):
+    # psi = sum_i 2 mu_i / alpha_i^2 (sum_a lb_a^alpha_i - 3) with the distortional stretches lb_a = J^(-1/3) l_a
+    def dWdl(l):
+        lb = l / np.prod(l) ** (1 / 3)
+        return sum(2 * m / a * (lb ** a - np.mean(lb ** a)) for m, a in zip(mu, alpha)) / l
+    return dWdl
+
+
+def storakers_dWdl(mu, alpha, beta):
+    # psi = sum_i 2 mu_i / alpha_i^2 (sum_a l_a^alpha_i - 3 + (J^(-alpha_i beta_i) - 1) / beta_i)
+    def dWdl(l):
+        J = np.prod(l)
+        return sum(2 * m / a * (l ** a - J ** (-a * b)) for m, a, b in zip(mu, alpha, beta)) / l
+    return dWdl
+
+
+def svk_dWdl(mu, lmbda, k):
+    # psi = mu sum_a e_a^2 + lmbda / 2 (sum_a e_a)^2 with the principal Seth-Hill strains e_a = (l_a^k - 1) / k resp. ln l_a
+    def dWdl(l):
+        e = np.log(l) if k == 0 else (l ** k - 1) / k
+        return (2 * mu * e + lmbda * np.sum(e)) * l ** (k - 1)
+    return dWdl
+
+
+def case_linear(rep, flavour=None):
     def fn(run):
         import felupe as fem
-        rng = rng_for(run.seed, "C12", "linear", rep)
+        rng = rng_for(run.seed, "C12", "linear", rep) if flavour is None else rng_for(run.seed, "C12", "linear", flavour, rep)
         E = float(10 ** rng.uniform(-1, 3))
         nu = float(rng.uniform(0.0, 0.49))
         batch = (2, 3)
         F = np.eye(3).reshape(3, 3, 1, 1) + 0.01 * rng.standard_normal((3, 3) + batch)
-        le = fem.LinearElastic(E=E, nu=nu)
-        tn = fem.constitution.LinearElasticTensorNotation(E=E, nu=nu)
+        Ein, nuin, par = E, nu, {}
+        if flavour == "auxetic":
+            # admissible engineering constants the other repetitions do not draw: negative Poisson ratios (-1 < nu < 0), constants
+            # handed over as numpy scalars, 0-d arrays or integers, and the threaded evaluation of the tensor-notation law
+            nu = nuin = -float(rng.uniform(0.05, 0.9))
+            E = float(rng.integers(1, 1000))
+            Ein, nuin = [(int(E), np.float64(nu)), (np.array(E), np.array(nu)), (np.float64(E), nu)][rep % 3]
+            par = {"parallel": True}
+            run.units["linear:auxetic"] += 1
+        le = fem.LinearElastic(E=Ein, nu=nuin)
+        tn = fem.constitution.LinearElasticTensorNotation(E=Ein, nu=nuin, **par)
         lm, mu = fem.constitution.lame_converter(E, nu)
+        if flavour is not None:
+            # (the converter is judged as well, against the textbook relations)
+            compare(run, "lame_converter~definition", "constants", [lm, mu], [E * nu / ((1 + nu) * (1 - 2 * nu)), E / (2 * (1 + nu))], E, 1e-12, "linear:lame-converter")
         ms = fem.MaterialStrain(material=fem.linear_elastic, λ=lm, μ=mu)
         s0 = le.gradient([F, None])[0]
         A0 = np.broadcast_to(le.hessian([F, None])[0], (3, 3, 3, 3) + batch)
@@ -224,6 +349,10 @@ def case_linear(rep):
         compare(run, "LinearElastic~TensorNotation", "stress", tn.gradient([F, None])[0], s0, sA, 1e-12, "linear:tensor-notation",
                 sample={"pair": "LinearElastic~LinearElasticTensorNotation", "E": E, "nu": nu})
         compare(run, "LinearElastic~TensorNotation", "elasticity", tn.hessian([F, None], shape=batch)[0], A0, sA, 1e-12, "linear:tensor-notation")
+        # the elasticity tensors asked for without a state (x=None, shape=<trailing axes>): documented signature, used by no other call
+        Adef_ = np.broadcast_to(iso_tensor(lm, mu).reshape(3, 3, 3, 3, 1, 1), (3, 3, 3, 3) + batch)
+        compare(run, "LinearElastic~definition", "elasticity[x=None,shape]", le.hessian(shape=batch)[0], Adef_, sA, 1e-12, "linear:hessian-without-state")
+        compare(run, "LinearElastic~TensorNotation", "elasticity[x=None,shape]", tn.hessian(shape=batch)[0], Adef_, sA, 1e-12, "linear:hessian-without-state")
         sv = np.zeros((ms.x[-1].shape[0],) + batch)
         compare(run, "LinearElastic~MaterialStrain(linear_elastic)", "stress", ms.gradient([F, sv])[0], s0, sA, 1e-12, "linear:material-strain")
         compare(run, "LinearElastic~MaterialStrain(linear_elastic)", "elasticity", ms.hessian([F, sv])[0], A0, sA, 1e-12, "linear:material-strain")
@@ -234,8 +363,8 @@ def case_linear(rep):
                 "linear:material-strain")
         # plane strain / plane stress vs the 3D law under the corresponding constraint
         F2d = np.eye(2).reshape(2, 2, 1, 1) + 0.01 * rng.standard_normal((2, 2) + batch)
-        pe = fem.constitution.LinearElasticPlaneStrain(E=E, nu=nu)
-        ps = fem.LinearElasticPlaneStress(E=E, nu=nu)
+        pe = fem.constitution.LinearElasticPlaneStrain(E=Ein, nu=nuin)
+        ps = fem.LinearElasticPlaneStress(E=Ein, nu=nuin)
         F3 = np.zeros((3, 3) + batch)
         F3[:2, :2] = F2d
         F3[2, 2] = 1.0
@@ -251,6 +380,8 @@ def case_linear(rep):
         compare(run, "PlaneStress~3D(sigma33=0)", "stress", ps.gradient([F2d, None])[0], s3s[:2, :2], sA, 1e-12, "linear:plane-stress")
         cond = A3[:2, :2, :2, :2] - np.einsum("ij,kl->ijkl", A3[:2, :2, 2, 2], A3[2, 2, :2, :2]) / A3[2, 2, 2, 2]
         compare(run, "PlaneStress~3D(sigma33=0)", "elasticity", ps.hessian([F2d, None])[0][..., 0, 0], cond, sA, 1e-12, "linear:plane-stress")
+        compare(run, "PlaneStress~3D(sigma33=0)", "elasticity[x=None,shape]", ps.hessian(shape=batch)[0], np.broadcast_to(cond.reshape(2, 2, 2, 2, 1, 1), (2, 2, 2, 2) + batch), sA,
+                1e-12, "linear:hessian-without-state")
         # the full (3x3) stress and strain the two plane laws report: the 3D law under the corresponding constraint
         sym3 = lambda G: 0.5 * (G + G.transpose(1, 0, 2, 3)) - np.eye(3).reshape(3, 3, 1, 1)
         for lab, law, F3c, unit in (("PlaneStrain~3D(eps33=0)", pe, F3, "linear:plane-strain:full"),
@@ -279,6 +410,8 @@ def case_linear(rep):
             Adef[i_, j_, i_, j_] = Adef[j_, i_, j_, i_] = Adef[i_, j_, j_, i_] = Adef[j_, i_, i_, j_] = g_
         compare(run, "LinearElasticOrthotropic~definition", "elasticity", Ao, Adef, maxabs(Adef), 1e-12, "linear:orthotropic:definition",
                 sample={"pair": "orthotropic definition", "E": Eo, "nu": nuo, "G": Go})
+        compare(run, "LinearElasticOrthotropic~definition", "elasticity[x=None,shape]", lo.hessian(shape=batch)[0], np.broadcast_to(Adef.reshape(3, 3, 3, 3, 1, 1), (3, 3, 3, 3) + batch),
+                maxabs(Adef), 1e-12, "linear:hessian-without-state")
         Fo_ = np.eye(3).reshape(3, 3, 1, 1) + 0.01 * rng.standard_normal((3, 3) + batch)
         eo_ = 0.5 * (Fo_ + Fo_.transpose(1, 0, 2, 3)) - np.eye(3).reshape(3, 3, 1, 1)
         compare(run, "LinearElasticOrthotropic~definition", "stress", lo.gradient([Fo_, None])[0], np.einsum("ijkl,kl...->ij...", Adef, eo_), maxabs(Adef), 1e-12,
@@ -303,9 +436,14 @@ def case_linear(rep):
                         sample={"pair": "orthotropic " + axes, "k": k, "E": Eo, "nu": nuo, "G": Go})
                 Ps = svk.gradient([np.eye(3).reshape(3, 3, 1, 1), None])[0][..., 0, 0]
                 compare(run, pair, "stress-free", Ps, 0 * Ps, maxabs(Ao), 1e-10 if k == 2 else 1e-5, unit)
+                if k != 2 and axes == "rotated":
+                    # the elasticity clause of this pair is a recorded finding (third-party eigh; its key passes at any size, non-
+                    # finite included): finite entries and a size within the recorded range (5e-2..2e-1, largest of 1900 draws
+                    # 0.24) stay judged under a key of their own; the model itself is judged at the stress level by case_svk
+                    compare(run, pair, "elasticity[recorded size]", As, Aq, maxabs(Ao), 0.75, unit + ":recorded-size")
         # with equal constants the orthotropic law is the isotropic one
         G = E / (2 * (1 + nu))
-        lo_iso = fem.LinearElasticOrthotropic(E=[E] * 3, nu=[nu] * 3, G=[G] * 3)
+        lo_iso = fem.LinearElasticOrthotropic(E=[Ein] * 3, nu=[nuin] * 3, G=[G] * 3)
         compare(run, "LinearElasticOrthotropic(isotropic constants)~LinearElastic", "stress", lo_iso.gradient([F, None])[0], s0, sA, 1e-12,
                 "linear:orthotropic-iso")
     return fn
@@ -338,6 +476,9 @@ def case_moduli(name, rep):
                             "%s: tangent at F = I has shear modulus %.6g, documented %.6g" % (name, mu0, mu_doc), unit=name + ":mu0",
                             config=(name, "mu0"), sample={"model": name, "params": {k: v for k, v in p.items() if not hasattr(v, 'shape')},
                                                           "mu0": float(mu0), "documented": float(mu_doc)})
+            if name.endswith(".blatz_ko"):
+                # the docstring states the Poisson ratio nu = 0.25 of the model: K = 2 mu (1 + nu) / (3 (1 - 2 nu)) = 5 mu / 3
+                K_doc = 5 * p["mu"] / 3
             if K_doc is not None:
                 run.compare(mon, "model=%s clause=initial-bulk-modulus" % name, abs(K0 - K_doc) / s, tol,
                             "%s: tangent at F = I has bulk modulus %.6g, documented %.6g" % (name, K0, K_doc), unit=name + ":K0",
@@ -345,6 +486,396 @@ def case_moduli(name, rep):
         if m.isochoric:
             run.compare(mon, "model=%s clause=isochoric-no-bulk-stiffness" % name, abs(K0) / s, tol,
                         "%s: a purely distortional model has a bulk stiffness at F = I" % name, unit=name + ":K0=0")
+    return fn
+
+
+EIG_TOL = 1e-7 + 100 * matreg.REG_SIZE["tt-eig"]  # class tolerance of results that go through tensortrax' perturbed eigvalsh / eigh
+
+
+def case_svk(rep):
+    """Saint-Venant Kirchhoff laws at finite strain.  The orthotropic law is judged at F = I only by case_linear, where every Seth-Hill
+    strain coincides with the linear strain: a wrong strain family, exponent or eigenbasis contraction is invisible there."""
+    def fn(run):
+        import felupe as fem
+        from ..util import random_rotation
+        rng = rng_for(run.seed, "C12", "svk", rep)
+        batch = (2, 3) if rep % 2 == 0 else (1, 4)
+        F = batch_F(rng, batch, lo=0.8, hi=1.3)
+        Eo, nuo, Go = list(rng.uniform(5, 15, 3)), list(rng.uniform(0.1, 0.3, 3)), list(rng.uniform(1, 4, 3))
+        lmo, muo = fem.constitution.lame_converter_orthotropic(E=Eo, nu=nuo, G=Go)
+        Adef = ortho_stiffness(Eo, nuo, Go)
+        sA = maxabs(Adef)
+        I3 = np.eye(3)
+        ks = (2, 1, 0, float(np.round(rng.uniform(-2, 3), 2)))
+        # (a) orthotropic law (engineering constants through the provided converter) against the definition written with numpy: the
+        # energy E_k : C : E_k / 2 with the stiffness of the engineering constants rotated into the material axes; k = 2 in closed
+        # form (stress and elasticity), k != 2 through the central difference of the energy (the stress only: the elasticity of
+        # k != 2 is the recorded tensortrax eigh finding)
+        for axes, Q in (("aligned", I3[:, [2, 0, 1]] if rep % 2 else I3), ("rotated", random_rotation(rng, 3))):
+            Cq = rotate4(Q, Adef)
+            for j, k in enumerate(ks):
+                kw = {} if k == 2 else {"k": k}
+                r3kw = [{"r3": Q[:, 2]}, {"r3": None}, {}][(rep + j) % 3]
+                svk = fem.Hyperelastic(fem.saint_venant_kirchhoff_orthotropic, mu=muo, lmbda=lmo, r1=Q[:, 0], r2=Q[:, 1], **r3kw, **kw)
+                P = svk.gradient([F, None])[0]
+                kk = (2, 1, 0, "real")[j]  # (unit by position in the schedule: the drawn exponent may round to 0, 1 or 2)
+                pair = "svk_orthotropic(%s axes,k%s)~definition" % (axes, "=2" if k == 2 else "!=2")
+                unit = "svk:orthotropic:%s:k=%s" % (axes, kk)
+                smp = {"pair": pair, "k": k, "E": Eo, "nu": nuo, "G": Go}
+                if k == 2:
+                    Pref, Aref = svk_closed_form(F, Cq)
+                    compare(run, pair, "stress[finite strain]", P, Pref, sA, 1e-10, unit, sample=smp)
+                    compare(run, pair, "elasticity[finite strain]", svk.hessian([F, None])[0], Aref, sA, 1e-10, unit)
+                else:
+                    Pref = MM.fd_wrt_F(lambda G: seth_hill_energy(G, Cq, k), F, 1e-5)
+                    compare(run, pair, "stress[finite strain]", P, Pref, sA, 1e-5, unit, sample=smp)
+        # (b) the isotropic law is the orthotropic one with equal constants, in any material axes and for every exponent (with equal
+        # constants the recorded defect of the eigenbasis derivatives cancels: the elasticity is judged as well)
+        mu, lm = float(rng.uniform(0.5, 2)), float(rng.uniform(1, 4))
+        for j, k in enumerate(ks):
+            Q = random_rotation(rng, 3)
+            kw = {} if k == 2 else {"k": k}
+            r3kw = [{}, {"r3": Q[:, 2]}, {"r3": None}][(rep + j) % 3]
+            iso = fem.Hyperelastic(fem.saint_venant_kirchhoff, mu=mu, lmbda=lm, **kw)
+            ort = fem.Hyperelastic(fem.saint_venant_kirchhoff_orthotropic, mu=[mu] * 3, lmbda=[lm] * 6, r1=Q[:, 0], r2=Q[:, 1], **r3kw, **kw)
+            Pi, Ai = iso.gradient([F, None])[0], iso.hessian([F, None])[0]
+            kk = (2, 1, 0, "real")[j]
+            pair = "saint_venant_kirchhoff~svk_orthotropic(equal constants,k%s)" % ("=2" if k == 2 else "!=2")
+            unit = "svk:iso~orthotropic:k=%s" % kk
+            compare(run, pair, "stress", ort.gradient([F, None])[0], Pi, maxabs(Ai), 1e-9, unit, sample={"pair": pair, "k": k, "mu": mu, "lmbda": lm})
+            compare(run, pair, "elasticity", ort.hessian([F, None])[0], Ai, maxabs(Ai), 1e-8, unit)
+            # ... and the isotropic law against its definition: k = 2 closed form, k != 2 in principal axes (numpy SVD)
+            pair = "saint_venant_kirchhoff(k%s)~definition" % ("=2" if k == 2 else "!=2")
+            unit = "svk:iso:definition:k=%s" % kk
+            if k == 2:
+                Pref, Aref = svk_closed_form(F, iso_tensor(lm, mu))
+                compare(run, pair, "stress", Pi, Pref, maxabs(Aref), 1e-12, unit)
+                compare(run, pair, "elasticity", Ai, Aref, maxabs(Aref), 1e-12, unit)
+            else:
+                compare(run, pair, "stress", Pi, principal_stress(F, svk_dWdl(mu, lm, k)), maxabs(Ai), EIG_TOL, unit)
+    return fn
+
+
+def case_reduction(rep):
+    """The same law offered twice for a subset of the parameters (tensortrax models; the jax copies are tied to them by the backend
+    pairs): the only judgement of the higher-order terms (C20, C30, Ogden exponents, tube exponent, series terms), which the initial
+    moduli do not see.  Ogden-type laws additionally against their definition in principal axes, with one to three terms."""
+    def fn(run):
+        import felupe.constitution.tensortrax as TT
+        M = TT.models.hyperelastic
+        rng = rng_for(run.seed, "C12", "reduction", rep)
+        batch = (2, 3) if rep % 2 == 0 else (1, 5)
+        F = batch_F(rng, batch, lo=0.75, hi=1.4)
+        U = lambda a, b: float(rng.uniform(a, b))
+        H = lambda name, **kw: TT.Hyperelastic(getattr(M, name), **kw)
+
+        def both(pair, a, b, tolP, tolA, unit, sample=None):
+            Pa, Aa = a.gradient([F, None])[0], a.hessian([F, None])[0]
+            compare(run, pair, "stress", b.gradient([F, None])[0], Pa, maxabs(Aa), tolP, "reduction:" + unit, sample=sample)
+            compare(run, pair, "elasticity", b.hessian([F, None])[0], Aa, maxabs(Aa), tolA, "reduction:" + unit)
+        C10, C01, C20, C30 = U(0.3, 1), U(0.05, 0.5), U(-0.02, 0.1), U(0, 0.05)
+        mu, G, b_ = U(0.5, 2), U(0.1, 0.5), U(0.1, 0.6)
+        yeoh = H("yeoh", C10=C10, C20=C20, C30=C30)
+        both("yeoh~third_order_deformation(C01=C11=0)", yeoh, H("third_order_deformation", C10=C10, C01=0.0, C11=0.0, C20=C20, C30=C30), 1e-12, 1e-12,
+             "yeoh~third_order_deformation", sample={"pair": "yeoh~third_order_deformation", "C10": C10, "C20": C20, "C30": C30})
+        mr = H("mooney_rivlin", C10=C10, C01=C01)
+        both("mooney_rivlin~third_order_deformation(C11=C20=C30=0)", mr, H("third_order_deformation", C10=C10, C01=C01, C11=0.0, C20=0.0, C30=0.0), 1e-12, 1e-12,
+             "mooney_rivlin~third_order_deformation")
+        both("mooney_rivlin~alexander(C2=k=0)", mr, H("alexander", C1=C10, C2=0.0, C3=C01, gamma=U(1, 3), k=0.0), 1e-12, 1e-12, "mooney_rivlin~alexander")
+        both("mooney_rivlin~ogden(alpha=[2,-2])", mr, H("ogden", mu=[2 * C10, 2 * C01], alpha=[2.0, -2.0]), EIG_TOL, 10 * EIG_TOL, "mooney_rivlin~ogden")
+        nh = H("neo_hooke", mu=mu)
+        both("neo_hooke~yeoh(C20=C30=0)", nh, H("yeoh", C10=mu / 2, C20=0.0, C30=0.0), 1e-12, 1e-12, "neo_hooke~yeoh")
+        both("neo_hooke~ogden(alpha=[2])", nh, H("ogden", mu=[mu], alpha=[2.0]), EIG_TOL, 10 * EIG_TOL, "neo_hooke~ogden")
+        both("neo_hooke~lopez_pamies(alpha=[1])", nh, H("lopez_pamies", mu=[mu], alpha=[1.0]), 1e-12, 1e-12, "neo_hooke~lopez_pamies")
+        both("neo_hooke~extended_tube(Ge=delta=0)", nh, H("extended_tube", Gc=mu, delta=0.0, Ge=0.0, beta=b_), 1e-12, 1e-12, "neo_hooke~extended_tube")
+        both("neo_hooke~alexander(C2=C3=k=0)", nh, H("alexander", C1=mu / 2, C2=0.0, C3=0.0, gamma=U(1, 3), k=0.0), 1e-12, 1e-12, "neo_hooke~alexander")
+        # the series of Arruda-Boyce beyond its first term is O(1 / limit^2): 0.2 I1 / limit^2 = 7e-11 of the first term at limit = 1e5
+        both("neo_hooke~arruda_boyce(limit=1e5)", nh, H("arruda_boyce", C1=mu, limit=1e5), 1e-8, 1e-8, "neo_hooke~arruda_boyce")
+        both("ogden(alpha=[-beta])~extended_tube(Gc=delta=0)", H("ogden", mu=[G], alpha=[-b_]), H("extended_tube", Gc=0.0, delta=0.0, Ge=G, beta=b_), EIG_TOL, 10 * EIG_TOL,
+             "ogden~extended_tube", sample={"pair": "ogden~extended_tube", "Ge": G, "beta": b_})
+        both("blatz_ko~storakers(alpha=[-2],beta=[1/2])", H("blatz_ko", mu=mu), H("storakers", mu=[mu], alpha=[-2.0], beta=[0.5]), EIG_TOL, 10 * EIG_TOL, "blatz_ko~storakers")
+        # Ogden-type laws with one, two, three terms against the documented energy differentiated in principal axes (numpy SVD); the
+        # elasticity against central differences of that reference stress (distinct stretches: the generator keeps a gap)
+        n = 1 + rep % 3
+        mus = [U(0.3, 1.5) * (0.3 if i else 1.0) for i in range(n)]
+        alphas = [U(1.2, 3) * (-1) ** i for i in range(n)]
+        betas = [U(0.3, 2) for i in range(n)]
+        I = np.eye(3).reshape(3, 3, 1, 1).copy()
+        for name, kw, dWdl, K_doc in (("ogden", dict(mu=mus, alpha=alphas), ogden_dWdl(mus, alphas), 0.0),
+                                      ("storakers", dict(mu=mus, alpha=alphas, beta=betas), storakers_dWdl(mus, alphas, betas),
+                                       sum(2 * m * (1 / 3 + b) for m, b in zip(mus, betas)))):
+            um = H(name, **kw)
+            A = um.hessian([F, None])[0]
+            pair, unit = "%s~definition" % name, "definition:%s:terms=%d" % (name, n)
+            compare(run, pair, "stress[principal axes]", um.gradient([F, None])[0], principal_stress(F, dWdl), maxabs(A), EIG_TOL, unit,
+                    sample={"pair": pair, "terms": n, "mu": mus, "alpha": alphas})
+            compare(run, pair, "elasticity[principal axes]", A, MM.fd_wrt_F(lambda G: principal_stress(G, dWdl), F, 1e-6), maxabs(A), 1e-5, unit)
+            # documented initial moduli for this number of terms: mu = sum mu_i (Storakers: K = sum 2 mu_i (1/3 + beta_i))
+            A0 = np.asarray(um.hessian([I, None])[0], float)[..., 0, 0]
+            mu0 = (A0[0, 1, 0, 1] + A0[0, 2, 0, 2] + A0[1, 2, 1, 2]) / 3
+            K0 = (A0[0, 0, 1, 1] + A0[0, 0, 2, 2] + A0[1, 1, 2, 2]) / 3 + 2 * mu0 / 3
+            run.compare("material.moduli", "model=tt.%s clause=initial-shear-modulus" % name, abs(mu0 - sum(mus)) / maxabs(A0), EIG_TOL,
+                        "tt.%s with %d term(s): tangent at F = I has shear modulus %.6g, documented %.6g" % (name, n, mu0, sum(mus)), unit=unit + ":mu0")
+            run.compare("material.moduli", "model=tt.%s clause=initial-bulk-modulus" % name, abs(K0 - K_doc) / maxabs(A0), EIG_TOL,
+                        "tt.%s with %d term(s): tangent at F = I has bulk modulus %.6g, documented %.6g" % (name, n, K0, K_doc), unit=unit + ":K0")
+    return fn
+
+
+def case_statevar_wrappers(which, rep):
+    """State variables through the wrappers of both backends: jax Hyperelastic(nstatevars > 0), the state branches of total_lagrange /
+    updated_lagrange (tensortrax and jax) and the flags jit=, jacobian=, parallel= are reached by no other workload (the registry's
+    wrapper laws are stateless, jax state variables occur only through Material(morph))."""
+    def fn(run):
+        import felupe as fem
+        import felupe.constitution.jax as JX
+        import felupe.constitution.tensortrax as TT
+        import jax
+        import jax.numpy as jnp
+        rng = rng_for(run.seed, "C12", "wrappers", which, rep)
+        mu = float(rng.uniform(0.5, 2))
+        if which == "viscoelastic":
+            # the library's tensortrax model and the example of the jax Hyperelastic docstring written for six stored components
+            eta, dtime = float(rng.uniform(0.5, 3)), float(rng.uniform(0.2, 1))
+            tri = lambda v: v[jnp.array([[0, 1, 2], [1, 3, 4], [2, 4, 5]])]
+
+            def viscoelastic(C, Cin, mu, eta, dtime):
+                Cu = jnp.linalg.det(C) ** (-1 / 3) * C
+                Ci = tri(Cin) + mu / eta * dtime * Cu
+                Ci = jnp.linalg.det(Ci) ** (-1 / 3) * Ci
+                return mu / 2 * (jnp.trace(Cu @ jnp.linalg.inv(Ci)) - 3), Ci[jnp.triu_indices(3)]
+            kw = dict(mu=mu, eta=eta, dtime=dtime)
+            impl = {"tt.Hyperelastic(finite_strain_viscoelastic)": TT.Hyperelastic(TT.models.hyperelastic.finite_strain_viscoelastic, nstatevars=6, **kw),
+                    "jax.Hyperelastic(viscoelastic,nstatevars=6)": JX.Hyperelastic(viscoelastic, nstatevars=6, **kw)}
+            if rep % 2:
+                impl["jax.Hyperelastic(viscoelastic,nstatevars=6,jit=False)"] = JX.Hyperelastic(viscoelastic, nstatevars=6, jit=False, **kw)
+            else:
+                impl["tt.Hyperelastic(finite_strain_viscoelastic,parallel=True)"] = TT.Hyperelastic(TT.models.hyperelastic.finite_strain_viscoelastic, nstatevars=6, parallel=True, **kw)
+            batch = (2, 3) if rep % 2 else (1, 4)
+            sv0 = np.broadcast_to(np.array([1.0, 0, 0, 1, 0, 1]).reshape(6, 1, 1), (6,) + batch).copy()  # C_i = 1
+            amps = [(0.75, 1.4), (0.9, 1.15), (0.8, 1.3)]
+        else:
+            # pseudo-elastic (Ogden-Roxburgh) isochoric Neo-Hooke as a stress-based law with the stored maximum energy: second Piola-
+            # Kirchhoff stress for total_lagrange, Cauchy stress for updated_lagrange, in both backends; sibling: the hand-coded class
+            import tensortrax.math as tm
+            from jax.scipy.special import erf as jerf
+            from tensortrax.math.linalg import det as tdet, inv as tinv
+            from tensortrax.math.special import erf as terf
+            r, m, beta = float(rng.uniform(1.5, 4)), float(rng.uniform(0.5, 2)), float(rng.uniform(0, 0.3))
+            kw = dict(mu=mu, r=r, m=m, beta=beta)
+
+            def S_tt(F, Wn, mu, r, m, beta):
+                C = F.T @ F
+                J3 = tdet(C) ** (-1 / 3)
+                W = mu / 2 * (J3 * tm.trace(C) - 3)
+                Wmax = tm.maximum(W, tm.array(Wn[:1], like=W))
+                eta = 1 - terf((Wmax - W) / (m + beta * Wmax)) / r
+                return eta * mu * J3 * (C @ tinv(C) - tm.trace(C) / 3 * tinv(C)), Wmax.x[None, ...]
+
+            def sigma_tt(F, Wn, mu, r, m, beta):
+                S, sv = S_tt(F, Wn, mu, r, m, beta)
+                return F @ S @ F.T / tdet(F), sv
+
+            def S_jax(F, Wn, mu, r, m, beta):
+                C = F.T @ F
+                J3 = jnp.linalg.det(C) ** (-1 / 3)
+                W = mu / 2 * (J3 * jnp.trace(C) - 3)
+                Wmax = jnp.maximum(W, Wn[0])
+                eta = 1 - jerf((Wmax - W) / (m + beta * Wmax)) / r
+                return eta * mu * J3 * (jnp.eye(3) - jnp.trace(C) / 3 * jnp.linalg.inv(C)), jnp.array([Wmax])
+
+            def sigma_jax(F, Wn, mu, r, m, beta):
+                S, sv = S_jax(F, Wn, mu, r, m, beta)
+                return F @ S @ F.T / jnp.linalg.det(F), sv
+            impl = {"OgdenRoxburgh(NeoHooke)": fem.OgdenRoxburgh(fem.NeoHooke(mu=mu), r=r, m=m, beta=beta),
+                    "tt.total_lagrange(S,Wmax)": TT.Material(TT.total_lagrange(S_tt), nstatevars=1, **kw),
+                    "tt.updated_lagrange(sigma,Wmax)": TT.Material(TT.updated_lagrange(sigma_tt), nstatevars=1, parallel=bool(rep % 2), **kw)}
+            # the two jax wrappers, one of them with a non-default flag of the jax Material (schedule by index)
+            ftl, ful = [({}, dict(jacobian=jax.jacrev)), (dict(jit=False), {}), (dict(jacobian=jax.jacfwd), {}), ({}, dict(jit=False))][rep % 4]
+            lab = lambda fl: "".join(",%s=%s" % (k_, getattr(v_, "__name__", v_)) for k_, v_ in fl.items())
+            impl["jax.total_lagrange(S,Wmax%s)" % lab(ftl)] = JX.Material(JX.total_lagrange(S_jax), nstatevars=1, **ftl, **kw)
+            impl["jax.updated_lagrange(sigma,Wmax%s)" % lab(ful)] = JX.Material(JX.updated_lagrange(sigma_jax), nstatevars=1, **ful, **kw)
+            batch = (1, 5) if rep % 2 else (2, 3)
+            sv0 = np.zeros((1,) + batch)
+            amps = [(0.7, 1.6), (0.7, 1.6), (0.9, 1.15), (0.8, 1.35)]  # load, load, inside the history (unloading branch), mixed
+        # the same history is fed to all (each keeps its own state); every step is judged
+        names = list(impl)
+        ref = names[0]
+        svs = {nm: sv0.copy() for nm in names}
+        for k, (lo_, hi_) in enumerate(amps):
+            F = batch_F(rng, batch, lo=lo_, hi=hi_)
+            Pr, svr = impl[ref].gradient([F, svs[ref]])
+            Ar = impl[ref].hessian([F, svs[ref]])[0]
+            sA = maxabs(Ar)
+            for nm in names[1:]:
+                pair = "%s~%s" % (ref, nm)
+                P, sv = impl[nm].gradient([F, svs[nm]])
+                compare(run, pair, "stress", P, Pr, sA, 1e-9, pair + ":stress", config=(pair, "stress", k), sample={"pair": pair, "mu": mu} if k == 0 else None)
+                compare(run, pair, "elasticity", impl[nm].hessian([F, svs[nm]])[0], Ar, sA, 1e-8, pair + ":elasticity")
+                compare(run, pair, "statevars", sv, svr, max(maxabs(svr), 1e-300), 1e-10, pair + ":statevars")
+                svs[nm] = np.asarray(sv)
+            svs[ref] = np.asarray(svr)
+    return fn
+
+
+MICROSPHERE = ("affine_stretch", "affine_tube", "nonaffine_stretch", "nonaffine_tube")
+
+
+def case_microsphere_pair(framework, rep):
+    """The public micro-sphere frameworks and chain laws of the jax backend against their tensortrax namesakes (the jax ones are reached
+    by no other workload, except nonaffine_* with the Langevin chain through miehe_goektepe_lulei)."""
+    def fn(run):
+        import felupe.constitution.jax as JX
+        import felupe.constitution.tensortrax as TT
+        tm_, jm_ = TT.models.hyperelastic.microsphere, JX.models.hyperelastic.microsphere
+        rng = rng_for(run.seed, "C12", "microsphere", framework, rep)
+        batch = (2, 3) if rep % 2 == 0 else (1, 4)
+        F = batch_F(rng, batch, lo=0.75, hi=1.4)
+        mu, N = float(rng.uniform(0.5, 2)), float(rng.uniform(5, 20))
+        extra = {"nonaffine_stretch": dict(p=float(rng.uniform(1.2, 3))), "nonaffine_tube": dict(q=float(rng.uniform(0.1, 1.5)))}.get(framework, {})
+        for chain, kw in (("langevin", dict(mu=mu, N=N)), ("linear", dict(mu=mu))):
+            a = TT.Hyperelastic(getattr(tm_, framework), f=getattr(tm_, chain), kwargs=kw, **extra)
+            # (a callable is no valid argument of a compiled jax function: the chain law is bound by a closure)
+            b = JX.Hyperelastic(lambda C, chain=chain, kw=kw: getattr(jm_, framework)(C, f=getattr(jm_, chain), kwargs=kw, **extra))
+            Aa = a.hessian([F, None])[0]
+            pair = "jax~tensortrax:microsphere.%s(%s)" % (framework, chain)
+            compare(run, pair, "stress", b.gradient([F, None])[0], a.gradient([F, None])[0], maxabs(Aa), 1e-9, pair + ":stress",
+                    sample={"pair": pair, "params": dict(kw, **extra)})
+            compare(run, pair, "elasticity", b.hessian([F, None])[0], Aa, maxabs(Aa), 1e-8, pair + ":elasticity")
+    return fn
+
+
+def case_microsphere_statevars(rep):
+    """affine_stretch_statevars / affine_tube_statevars of both backends with a chain law that carries a history (per direction: the
+    largest stretch so far, which softens the chain): the jax frameworks have no caller in the library at all."""
+    def fn(run):
+        import felupe.constitution.jax as JX
+        import felupe.constitution.tensortrax as TT
+        import jax.numpy as jnp
+        import tensortrax.math as tm
+        from tensortrax.math.special import try_stack
+        tm_, jm_ = TT.models.hyperelastic.microsphere, JX.models.hyperelastic.microsphere
+        rng = rng_for(run.seed, "C12", "microsphere-statevars", rep)
+        batch = (1, 3)
+        kw = dict(mu=float(rng.uniform(0.5, 2)), c=float(rng.uniform(0.5, 3)))
+
+        def chain_tt(stretch, statevars, mu, c):
+            smax = tm.maximum(tm.abs(stretch - 1), tm.array(statevars[:21], like=stretch, shape=(21,)))
+            return mu * (stretch - 1) ** 2 / (1 + c * smax), try_stack([smax], fallback=statevars)
+
+        def chain_jax(stretch, statevars, mu, c):
+            smax = jnp.maximum(jnp.abs(stretch - 1), statevars[:21])
+            return mu * (stretch - 1) ** 2 / (1 + c * smax), smax
+        for framework in ("affine_stretch_statevars", "affine_tube_statevars"):
+            a = TT.Hyperelastic(lambda C, sv, **k_: getattr(tm_, framework)(C, sv, f=chain_tt, kwargs=k_), nstatevars=21, **kw)
+            b = JX.Hyperelastic(lambda C, sv, mu, c: getattr(jm_, framework)(C, sv, f=chain_jax, kwargs=dict(mu=mu, c=c)), nstatevars=21, **kw)
+            sva = svb = np.zeros((21,) + batch)
+            pair = "jax~tensortrax:microsphere.%s(history chain)" % framework
+            for k, (lo_, hi_) in enumerate([(0.75, 1.4), (0.9, 1.15), (0.8, 1.3)]):
+                F = batch_F(rng, batch, lo=lo_, hi=hi_)
+                Pa, sva2 = a.gradient([F, sva])
+                Pb, svb2 = b.gradient([F, svb])
+                Aa = a.hessian([F, sva])[0]
+                compare(run, pair, "stress", Pb, Pa, maxabs(Aa), 1e-9, pair + ":stress", config=(pair, "stress", k))
+                compare(run, pair, "elasticity", b.hessian([F, svb])[0], Aa, maxabs(Aa), 1e-8, pair + ":elasticity")
+                compare(run, pair, "statevars", svb2, sva2, max(maxabs(sva2), 1e-300), 1e-10, pair + ":statevars")
+                sva, svb = np.asarray(sva2), np.asarray(svb2)
+    return fn
+
+
+def case_representative_directions(rep):
+    """MORPH by representative directions is offered twice inside the tensortrax backend: as an energy (hyperelastic., through
+    affine_stretch_statevars and real_to_dual) and as a stress (lagrange., through affine_force_statevars).  With the same
+    regularisation eps (the two defaults differ: 1e-8 / 1e-6) they are the same law."""
+    def fn(run):
+        import felupe.constitution.tensortrax as TT
+        rng = rng_for(run.seed, "C12", "representative-directions", rep)
+        p = [0.039, 0.371, 0.174, 2.41, 0.0094, 6.84, 5.65, 0.244]
+        eps = [1e-6, 1e-8, 1e-7, 1e-5][rep % 4]
+        a = TT.Hyperelastic(TT.models.hyperelastic.morph_representative_directions, p=p, nstatevars=84, ε=eps)
+        b = TT.Material(TT.models.lagrange.morph_representative_directions, p=p, nstatevars=84, ε=eps)
+        batch = (1, 2)
+        sva = svb = np.zeros((84,) + batch)
+        pair = "tt.hyperelastic~tt.lagrange:morph_representative_directions"
+        for k, (lo_, hi_) in enumerate([(0.8, 1.3), (0.93, 1.08), (0.7, 1.45)]):
+            F = batch_F(rng, batch, lo=lo_, hi=hi_)
+            Pa, sva2 = a.gradient([F, sva])
+            Pb, svb2 = b.gradient([F, svb])
+            Ab = b.hessian([F, svb])[0]
+            compare(run, pair, "stress", Pa, Pb, maxabs(Ab), 1e-9, pair + ":stress", config=(pair, "stress", k))
+            compare(run, pair, "elasticity", a.hessian([F, sva])[0], Ab, maxabs(Ab), 1e-8, pair + ":elasticity")
+            compare(run, pair, "statevars", sva2, svb2, max(maxabs(svb2), 1e-300), 1e-10, pair + ":statevars")
+            sva, svb = np.asarray(sva2), np.asarray(svb2)
+    return fn
+
+
+def case_meanings(rep):
+    """Documented parameter meanings and magnitudes that no other clause reads: the default lmbda=None of NeoHookeCompressible, the
+    softening parameter r of the two Ogden-Roxburgh implementations (a typo shared by both copies of eta passes the pair), and the
+    hand-coded family in another unit system (the other cases draw moduli of O(1), where an absolute threshold is invisible)."""
+    def fn(run):
+        import felupe as fem
+        rng = rng_for(run.seed, "C12", "meanings", rep)
+        batch = (1, 5) if rep % 2 == 0 else (2, 3)
+        F = batch_F(rng, batch, lo=0.75, hi=1.4)
+        mu, lm, bulk = float(rng.uniform(0.5, 2)), float(rng.uniform(1, 4)), float(rng.uniform(2, 30))
+        r, m, beta = float(rng.uniform(1.5, 4)), float(rng.uniform(0.5, 2)), float(rng.uniform(0, 0.3))
+        # (a) the first Lame parameter left out (documented default None: no such term) is the law with lmbda = 0
+        a, b = fem.NeoHookeCompressible(mu=mu), fem.NeoHookeCompressible(mu=mu, lmbda=0.0)
+        Ab = b.hessian([F, None])[0]
+        compare(run, "NeoHookeCompressible(mu)~NeoHookeCompressible(mu,lmbda=0)", "stress", a.gradient([F, None])[0], b.gradient([F, None])[0], maxabs(Ab), 1e-12, "meanings:lmbda=None")
+        compare(run, "NeoHookeCompressible(mu)~NeoHookeCompressible(mu,lmbda=0)", "elasticity", a.hessian([F, None])[0], Ab, maxabs(Ab), 1e-12, "meanings:lmbda=None")
+        # (b) documented meaning of r: at maximum softening the shear modulus of the base material is scaled to 1 - 1/r.  Undeformed
+        # state, stored maximum energy far above the softening modulus (erf = 1 to round-off), beta = 0: the tangent is (1 - 1/r) times
+        # the isochoric Neo-Hookean tangent at F = I (shear modulus mu, no bulk stiffness)
+        I = np.eye(3).reshape(3, 3, 1, 1).copy()
+        Aref = (1 - 1 / r) * iso_tensor(-2 * mu / 3, mu)
+        for lab, um in (("OgdenRoxburgh(NeoHooke)", fem.OgdenRoxburgh(fem.NeoHooke(mu=mu), r=r, m=m, beta=0.0)),
+                        ("tt.ogden_roxburgh(neo_hooke)", fem.Hyperelastic(fem.ogden_roxburgh, material=fem.neo_hooke, mu=mu, r=r, m=m, beta=0.0, nstatevars=1))):
+            A = np.asarray(um.hessian([I, np.full((1, 1, 1), 50 * m)])[0], float)[..., 0, 0]
+            run.compare("material.moduli", "model=%s clause=softened-shear-modulus" % lab, maxabs(A - Aref) / maxabs(Aref), 1e-10,
+                        "%s: tangent at F = I under maximum softening is not (1 - 1/r) times the tangent of the base material" % lab,
+                        unit="meanings:r:" + lab, config=(lab, "softened-shear-modulus"), sample={"model": lab, "mu": mu, "r": r, "m": m})
+        # (c) the hand-coded family and its siblings with all moduli (and the softening modulus m, an energy density) x 1e-9 / 1e+9:
+        # the siblings agree, and every result is exactly the scaled result of the O(1) system
+        reg = {x.name: x for x in C03.registry()}
+
+        def family(s):
+            E, nu = s * mu * (3 * lm + 2 * mu) / (lm + mu), lm / (2 * (lm + mu))
+            tl, _ = reg["tt.total_lagrange(neo-hooke S)"].make(rng_for(0))
+            ul, _ = reg["tt.updated_lagrange(neo-hooke sigma)"].make(rng_for(0))
+            tl.kwargs.update(mu=s * mu, lmbda=s * lm)
+            ul.kwargs.update(mu=s * mu, lmbda=s * lm)
+            return {"NeoHooke": {"NeoHooke(mu)": fem.NeoHooke(mu=s * mu), "tt.neo_hooke": fem.Hyperelastic(fem.neo_hooke, mu=s * mu)},
+                    "composite": {"NeoHooke(mu,bulk)": fem.NeoHooke(mu=s * mu, bulk=s * bulk), "NeoHooke(mu)&Volumetric(bulk)": fem.NeoHooke(mu=s * mu) & fem.Volumetric(bulk=s * bulk)},
+                    "NeoHookeCompressible": {"NeoHookeCompressible": fem.NeoHookeCompressible(mu=s * mu, lmbda=s * lm), "LinearElasticLargeStrain(lame_converter)": fem.LinearElasticLargeStrain(E=E, nu=nu),
+                                             "total_lagrange(S)": tl, "updated_lagrange(sigma)": ul},
+                    "OgdenRoxburgh": {"OgdenRoxburgh(NeoHooke)": fem.OgdenRoxburgh(fem.NeoHooke(mu=s * mu), r=r, m=s * m, beta=beta),
+                                      "tt.ogden_roxburgh(neo_hooke)": fem.Hyperelastic(fem.ogden_roxburgh, material=fem.neo_hooke, mu=s * mu, r=r, m=s * m, beta=beta, nstatevars=1)}}
+        Fh = [batch_F(rng, batch, lo=0.7, hi=1.6), batch_F(rng, batch, lo=0.9, hi=1.15)]  # load, then a state inside the history
+        Fv = F * rng.uniform(0.85, 1.2, (1, 1) + batch)  # volume-changing states for the compressible laws
+
+        def evaluate(fam, impl):
+            if fam == "OgdenRoxburgh":
+                sv = np.asarray(impl.gradient([Fh[0], np.zeros((1,) + batch)])[-1])
+                return impl.gradient([Fh[1], sv])[0], impl.hessian([Fh[1], sv])[0]
+            G = F if fam == "NeoHooke" else Fv
+            return impl.gradient([G, None])[0], impl.hessian([G, None])[0]
+        s_ = 10.0 ** [-9, 9, -6, 6][rep % 4]
+        one, scaled = family(1.0), family(s_)
+        for fam in one:
+            names = list(one[fam])
+            P1, A1 = evaluate(fam, one[fam][names[0]])
+            sA = maxabs(A1)
+            for nm in names:
+                Ps, As = evaluate(fam, scaled[fam][nm])
+                if nm != names[0]:
+                    pair = "%s~%s" % (names[0], nm)
+                    Pr, Ar = evaluate(fam, scaled[fam][names[0]])
+                    compare(run, pair, "stress[scaled units]", Ps, Pr, sA * s_, 1e-9, "meanings:units:" + fam)
+                    compare(run, pair, "elasticity[scaled units]", As, Ar, sA * s_, 1e-8, "meanings:units:" + fam)
+                Pn, An = evaluate(fam, one[fam][nm])
+                compare(run, nm, "stress[linear in the stiffness parameters]", Ps, s_ * np.asarray(Pn), sA * s_, 1e-12, "meanings:units:" + fam)
+                compare(run, nm, "elasticity[linear in the stiffness parameters]", As, s_ * np.asarray(An), sA * s_, 1e-12, "meanings:units:" + fam)
     return fn
 
 
@@ -368,6 +899,29 @@ def cases(tier, seed):
     for name in MODULI:
         for rep in range(1 if tier == "quick" else 4):
             out.append(("moduli:%s:%d" % (name, rep), case_moduli(name, rep)))
+    # families of the third audit, appended so that the cases above keep their shards.  Those that compile jax functions come first:
+    # in the quick tier (80 cases before them, round-robin over 12 shards) each lands on a shard of its own and none joins
+    # lagrange:morph, the longest case
+    n1, n2, n4 = (1, 1, 1) if tier == "quick" else (2, 3, 4)
+    heavy = [("microsphere:%s:%d" % (fw, rep), case_microsphere_pair(fw, rep)) for rep in range(n1) for fw in MICROSPHERE[:3]]
+    heavy += [("pair:storakers[terms=1]", case_backend_pair("storakers", 101, nterms=1))]
+    heavy += [("wrappers:pseudo-elastic:%d" % rep, case_statevar_wrappers("pseudo-elastic", rep)) for rep in range(n4)]
+    heavy += [("microsphere:%s:%d" % (MICROSPHERE[3], rep), case_microsphere_pair(MICROSPHERE[3], rep)) for rep in range(n1)]
+    heavy += [("microsphere:statevars:%d" % rep, case_microsphere_statevars(rep)) for rep in range(n1)]
+    heavy += [("wrappers:viscoelastic:%d" % rep, case_statevar_wrappers("viscoelastic", rep)) for rep in range(n4)]
+    heavy += [("pair:storakers[terms=3]", case_backend_pair("storakers", 103, nterms=3))]
+    out += heavy
+    out.append(("svk:0", case_svk(0)))
+    for rep in range(3 if tier == "quick" else 6):
+        out.append(("linear:auxetic:%d" % rep, case_linear(rep, flavour="auxetic")))
+    for rep in range(1, reps):
+        out.append(("svk:%d" % rep, case_svk(rep)))
+    for rep in range(3 if tier == "quick" else 9):
+        out.append(("reduction:%d" % rep, case_reduction(rep)))
+    for rep in range(reps):
+        out.append(("meanings:%d" % rep, case_meanings(rep)))
+    for rep in range(n4):
+        out.append(("representative-directions:%d" % rep, case_representative_directions(rep)))
     return out
 
 
@@ -389,6 +943,30 @@ def _required():
               "jax.extended_tube[delta=0]"]
     req += [n + ":mu0" for n in reg_mu]
     req += ["NeoHooke(mu,bulk):K0", "tt.storakers:K0", "jax.storakers:K0", "tt.neo_hooke:isotropic-tangent", "tt.ogden:isotropic-tangent"]
+    # third audit (every unit below is reached by the index schedule of the quick tier, whatever the seed)
+    req += ["tt.blatz_ko:K0", "jax.blatz_ko:K0"]
+    req += ["jax~tensortrax:%s:units" % n for n in STIFFNESS]
+    req += ["pairs:storakers:terms=1", "pairs:storakers:terms=3", "jax~tensortrax:lagrange.morph:stress:virgin", "jax~tensortrax:lagrange.morph:elasticity:finite",
+            "jax~tensortrax:lagrange.morph:elasticity:recorded-size", "linear:orthotropic:rotated:k=1:recorded-size", "linear:orthotropic:rotated:k=0:recorded-size",
+            "linear:auxetic", "linear:hessian-without-state", "linear:lame-converter"]
+    for k in (2, 1, 0, "real"):
+        req += ["svk:orthotropic:aligned:k=%s" % k, "svk:orthotropic:rotated:k=%s" % k, "svk:iso~orthotropic:k=%s" % k, "svk:iso:definition:k=%s" % k]
+    req += ["reduction:" + n for n in ("yeoh~third_order_deformation", "mooney_rivlin~third_order_deformation", "mooney_rivlin~alexander", "mooney_rivlin~ogden", "neo_hooke~yeoh",
+                                       "neo_hooke~ogden", "neo_hooke~lopez_pamies", "neo_hooke~extended_tube", "neo_hooke~alexander", "neo_hooke~arruda_boyce", "ogden~extended_tube",
+                                       "blatz_ko~storakers")]
+    for n in (1, 2, 3):
+        req += ["definition:%s:terms=%d%s" % (m, n, c) for m in ("ogden", "storakers") for c in ("", ":mu0", ":K0")]
+    for nm in ("tt.total_lagrange(S,Wmax)", "tt.updated_lagrange(sigma,Wmax)", "jax.total_lagrange(S,Wmax)", "jax.updated_lagrange(sigma,Wmax,jacobian=jacrev)"):
+        req += ["OgdenRoxburgh(NeoHooke)~%s:%s" % (nm, c) for c in ("stress", "elasticity", "statevars")]
+    for nm in ("jax.Hyperelastic(viscoelastic,nstatevars=6)", "tt.Hyperelastic(finite_strain_viscoelastic,parallel=True)"):
+        req += ["tt.Hyperelastic(finite_strain_viscoelastic)~%s:%s" % (nm, c) for c in ("stress", "elasticity", "statevars")]
+    for fw in MICROSPHERE:
+        req += ["jax~tensortrax:microsphere.%s(%s):%s" % (fw, ch, c) for ch in ("langevin", "linear") for c in ("stress", "elasticity")]
+    for fw in ("affine_stretch_statevars", "affine_tube_statevars"):
+        req += ["jax~tensortrax:microsphere.%s(history chain):%s" % (fw, c) for c in ("stress", "elasticity", "statevars")]
+    req += ["tt.hyperelastic~tt.lagrange:morph_representative_directions:%s" % c for c in ("stress", "elasticity", "statevars")]
+    req += ["meanings:lmbda=None", "meanings:r:OgdenRoxburgh(NeoHooke)", "meanings:r:tt.ogden_roxburgh(neo_hooke)", "meanings:units:NeoHooke", "meanings:units:composite",
+            "meanings:units:NeoHookeCompressible", "meanings:units:OgdenRoxburgh"]
     return req
 
 
@@ -398,9 +976,18 @@ SPEC = {
              "OgdenRoxburgh vs their AD versions (same history for state-variable models), total/updated Lagrange wrappers, the linear-"
              "elastic family (component, tensor notation, small-strain framework, plane strain/stress vs constrained 3D, orthotropic vs "
              "orthotropic SVK at F = I through lame_converter_orthotropic); random parameters and states; documented initial moduli of "
-             "every model with a closed form; a configuration is distinct by (pair or model, clause)"),
+             "every model with a closed form; a configuration is distinct by (pair or model, clause).  Third audit: Saint-Venant Kirchhoff laws "
+             "at finite strain (orthotropic vs the energy of the engineering constants written with numpy, isotropic vs orthotropic with equal "
+             "constants, every Seth-Hill exponent); reductions between tensortrax models for parameter subsets and Ogden-type laws vs their "
+             "definition in principal axes (1-3 terms); state variables through jax Hyperelastic / total_lagrange / updated_lagrange of both "
+             "backends and the flags jit, jacobian, parallel; the jax micro-sphere frameworks vs their tensortrax namesakes; the two tensortrax "
+             "MORPH-by-representative-directions; scaled unit systems; recorded findings keep their keys, their finiteness and size are judged "
+             "under keys of their own"),
     "assumptions": ["jax storakers / extended_tube perturb C by diag(0,+-1e-4,-+1e-4): the tensortrax model function is evaluated on the "
                     "identically perturbed C (tolerance 1e-6) and the raw difference is bounded by 20 x 1e-4 x |A|",
+                    "recorded findings (lagrange.morph elasticity, orthotropic SVK k != 2 in rotated axes): size bounds 0.5 / 0.75 of the tensor "
+                    "(largest observed over 1500 / 1900 draws: 0.07 / 0.24); they guard against non-finite or grossly different results only",
+                    "scaled unit systems: the compiled jax material object is kept and its parameters (umat.kwargs) are replaced",
                     "documented moduli: the docstring equations (arruda_boyce: the series; extended tube at delta = 0; van der Waals within 1e-2: its unconditional Im += 1e-4 shifts the initial modulus by O(sqrt(1e-4 / (limit^2 - 3)) + a sqrt(1e-4)))"],
     "jobs": {"quick": 12, "thorough": 16},
     "timeout": {"quick": 1200, "thorough": 5400},
